@@ -107,6 +107,53 @@ Theorem C15_malformed_ignored_in_text : forall a bad b c1 c2,
 Proof. exact (good_malformed_ignored_text src_cfg C15_source_configuration_good). Qed.
 Print Assumptions C15_malformed_ignored_in_text.
 
+(* ONLY ';' and newline separate: a rule text that contains neither is one line, whatever else it contains
+   (colon, comma, bar, hash, slash, backslash, quotes, blanks, non-ASCII) - it gives the one rule of that line or,
+   when the line is malformed, no rule at all *)
+Theorem C15_only_semicolon_and_newline_separate : forall l, (forall c, In c l -> is_sep c = false) ->
+  parse_rules src_cfg l = match parse_line src_cfg l with Some r => [r] | None => [] end.
+Proof. exact (good_only_separators_separate src_cfg C15_source_configuration_good). Qed.
+Print Assumptions C15_only_semicolon_and_newline_separate.
+
+(* ... in particular a character that is not a separator, put between two separator-free texts, does not start a
+   new rule *)
+Theorem C15_non_separator_does_not_split : forall a c b, is_sep c = false ->
+  (forall x, In x a -> is_sep x = false) -> (forall x, In x b -> is_sep x = false) ->
+  parse_rules src_cfg (a ++ c :: b) = match parse_line src_cfg (a ++ c :: b) with Some r => [r] | None => [] end.
+Proof. exact (good_non_separator_glues src_cfg C15_source_configuration_good). Qed.
+Print Assumptions C15_non_separator_does_not_split.
+
+(* the rule text  <name>=<value>  for a non-empty name without blanks and without ';' that does not end in a type
+   suffix is exactly the ONE untyped rule for that name - every other character of the name (':' of "ns::mod",
+   ',' '|' '#' '/' backslash, quotes, '=' '.', any non-ASCII code unit) belongs to the name ... *)
+Theorem C15_name_with_punctuation_is_one_rule : forall n v e, n <> [] -> solid n -> ~ In 59 n ->
+  (forall p sfx t, In (sfx, t) (suffixes src_cfg) -> p <> [] -> n <> p ++ 46 :: sfx) ->
+  In (v, e) (values src_cfg) ->
+  parse_rules src_cfg (n ++ 61 :: v) = [{| pat := n; rtype := None; enabled := e |}].
+Proof. exact (good_single_rule_text src_cfg C15_source_configuration_good). Qed.
+Print Assumptions C15_name_with_punctuation_is_one_rule.
+
+(* ... and that filter gives the rule's value to exactly the categories the name globs (for a name without '*':
+   to the category spelled like the name, C15_metacharacters_are_literal); every other category passes *)
+Theorem C15_single_rule_decides : forall n v e, n <> [] -> solid n -> ~ In 59 n ->
+  (forall p sfx t, In (sfx, t) (suffixes src_cfg) -> p <> [] -> n <> p ++ 46 :: sfx) ->
+  In (v, e) (values src_cfg) ->
+  forall c t, category_filter src_cfg (n ++ 61 :: v) c t = if glob 42 n c then e else true.
+Proof. exact (good_single_rule_decides src_cfg C15_source_configuration_good). Qed.
+Print Assumptions C15_single_rule_decides.
+
+(* the same for  <name>.<suffix>=<value> : one rule, for that name, for the type the suffix names *)
+Theorem C15_typed_name_with_punctuation_is_one_rule : forall n sfx t v e, n <> [] -> solid n -> ~ In 59 n ->
+  In (sfx, t) (suffixes src_cfg) -> In (v, e) (values src_cfg) ->
+  parse_rules src_cfg (n ++ 46 :: sfx ++ 61 :: v) = [{| pat := n; rtype := Some t; enabled := e |}].
+Proof. exact (good_single_typed_rule_text src_cfg C15_source_configuration_good). Qed.
+Print Assumptions C15_typed_name_with_punctuation_is_one_rule.
+Theorem C15_single_typed_rule_decides : forall n sfx t v e, n <> [] -> solid n -> ~ In 59 n ->
+  In (sfx, t) (suffixes src_cfg) -> In (v, e) (values src_cfg) ->
+  forall c t', category_filter src_cfg (n ++ 46 :: sfx ++ 61 :: v) c t' = if glob 42 n c && mtype_eqb t t' then e else true.
+Proof. exact (good_single_typed_rule_decides src_cfg C15_source_configuration_good). Qed.
+Print Assumptions C15_single_typed_rule_decides.
+
 (* what a well-formed line is — the rule regex as a grammar: blanks, a non-empty blank-free name,
    optionally ".debug|.info|.warning|.critical" (typed reading whenever something precedes the suffix),
    blanks, '=', blanks, true|false, blanks.  [LineOK] is an inductive relation of CategoryProofs.v;
@@ -248,6 +295,46 @@ Example C15_nonvacuous :
   /\ parse_line src_cfg [97;61;84;82;85;69] = None
   /\ parse_line src_cfg [61;116;114;117;101] = None.
 Proof. vm_compute. repeat split; reflexivity. Qed.
+
+(* non-vacuity of the punctuation / non-ASCII theorems.
+   "ui::widgets=false" is ONE rule for the category "ui::widgets": that category is dropped, "widgets" and "ui" pass;
+   "garbage:app=false" does not touch "app"; the name ex_punct (letters joined by comma, bar, hash, slash, backslash, double and single quote) matches itself only;
+   "net:*" globs "net:tcp".  Non-ASCII names are sequences of UTF-16 code units like any other: the rule text
+   "<cyrillic set>.*=false;<U+1F600>.log.debug=false" drops "<cyrillic set>.http" and the debug messages of "<U+1F600>.log" (a surrogate
+   pair), and does NOT drop the categories whose names are the UTF-8 bytes of those names read as Latin-1. *)
+Definition ex_scoped : str := [117;105;58;58;119;105;100;103;101;116;115].             (* ui::widgets *)
+Definition ex_punct : str := [97;44;98;124;99;35;100;47;101;92;102;34;103;39;104].
+Definition ex_rules_u : str :=
+  [1089;1077;1090;1100;46;42;61;102;97;108;115;101;59;55357;56832;46;108;111;103;46;100;101;98;117;103;61;102;97;108;115;101].
+Example C15_punctuation_nonvacuous :
+  parse_rules src_cfg (ex_scoped ++ 61 :: s_false) = [{| pat := ex_scoped; rtype := None; enabled := false |}]
+  /\ category_filter src_cfg (ex_scoped ++ 61 :: s_false) ex_scoped Debug = false
+  /\ category_filter src_cfg (ex_scoped ++ 61 :: s_false) [119;105;100;103;101;116;115] Debug = true
+  /\ category_filter src_cfg (ex_scoped ++ 61 :: s_false) [117;105] Debug = true
+  /\ category_filter src_cfg [103;97;114;98;97;103;101;58;97;112;112;61;102;97;108;115;101] [97;112;112] Critical = true
+  /\ category_filter src_cfg (ex_punct ++ 61 :: s_false) ex_punct Info = false
+  /\ category_filter src_cfg (ex_punct ++ 61 :: s_false) [97] Info = true
+  /\ category_filter src_cfg ([110;101;116;58;42] ++ 61 :: s_false) [110;101;116;58;116;99;112] Warning = false
+  /\ category_filter src_cfg ([110;101;116;58;42] ++ 61 :: s_false) [116;99;112] Warning = true
+  /\ length (parse_rules src_cfg ex_rules_u) = 2%nat
+  /\ category_filter src_cfg ex_rules_u [1089;1077;1090;1100;46;104;116;116;112] Fatal = false
+  /\ category_filter src_cfg ex_rules_u [209;129;208;181;209;130;209;140;46;104;116;116;112] Fatal = true
+  /\ map (category_filter src_cfg ex_rules_u [55357;56832;46;108;111;103]) [Debug; Info] = [false; true]
+  /\ category_filter src_cfg ex_rules_u [240;159;152;128;46;108;111;103] Debug = true.
+Proof. vm_compute. repeat split; reflexivity. Qed.
+(* the hypotheses of C15_name_with_punctuation_is_one_rule are satisfiable by such a name *)
+Example C15_punctuated_name_hypotheses :
+  ex_scoped <> [] /\ solid ex_scoped /\ ~ In 59 ex_scoped
+  /\ (forall p sfx t, In (sfx, t) (suffixes src_cfg) -> p <> [] -> ex_scoped <> p ++ 46 :: sfx)
+  /\ In (s_false, false) (values src_cfg).
+Proof.
+  split; [discriminate|]. split; [|split; [|split]].
+  - intros x Hx. cbn in Hx. repeat (destruct Hx as [<-|Hx]; [reflexivity|]). contradiction.
+  - cbn. intros H. repeat (destruct H as [H|H]; [discriminate|]). contradiction.
+  - intros p sfx t Hin _ E. assert (H46 : In 46 ex_scoped) by (rewrite E; apply in_elt).
+    cbn in H46. repeat (destruct H46 as [H46|H46]; [discriminate|]). contradiction.
+  - cbn. right. left. reflexivity.
+Qed.
 
 (* non-vacuity of the history theorems: rules "net.*=false;net.dns.warning=true"; ONE buffer (address 7) holds
    "net.http", then "gui.main", then "net.dns" (debug, debug, debug, then net.dns as a warning, then "net.ftp"
